@@ -282,6 +282,35 @@ func (g *GhostDB) dbBuiltin(env *SpecEnv, st *State, name string, args []TV) (TV
 		return TV{VScalar{pv.Nil}, boolT}, true
 	case "now":
 		return TV{VScalar{g.now}, types.Typ[types.Int64]}, true
+	case "scanned":
+		// scanned(rows, record, "Kind"): the record carries exactly the columns the read command Kind
+		// delivers, taken from the row the last rows.Next() produced (every column under its own name)
+		if len(args) != 3 {
+			return TV{}, false
+		}
+		kindName, ok := g.x.sym.LitValue(env.term(args[2]).S)
+		if !ok {
+			return TV{}, false
+		}
+		cs := cmdSpecByKind(kindName)
+		ro, _ := g.x.rowsObj(st, args[0].V)
+		if cs == nil || cs.Read == nil || ro == nil || ro.CurKey.S == "" {
+			return TV{VScalar{TFalse}, boolT}, true
+		}
+		table := g.schema.Tables[cs.Read.Table]
+		if table == nil || ro.Stmt.Select == nil || ro.Stmt.Select.From != table.Name {
+			return TV{VScalar{TFalse}, boolT}, true
+		}
+		pt, ok := args[1].T.Underlying().(*types.Pointer)
+		if !ok {
+			return TV{}, false
+		}
+		row := g.rowAt(st, ro.Snap[table.Name], ro.CurKey)
+		t, err := g.x.recordMatches(st, args[1].V, pt.Elem(), table, row, cs.Read.Cols)
+		if err != nil {
+			env.fail("%v", err)
+		}
+		return TV{VScalar{t}, boolT}, true
 	case "now0":
 		// the clock value the coroutine observed first (at entry)
 		if g.now0.S != "" {
